@@ -51,8 +51,8 @@ def c02(tier):
         sc = {"prop": "C02", "cfgs": cfgs(kinds, [n]), "alphabet": alpha, "unit": 1, "maxlen": L, "extras": True}
         run.submit(p1_job, "w-n%d" % n, "MC_Def", sc)
         with_model(run, "w-n%d" % n, sc)
-    run.submit(apalache_job, "Ind_Sma")
-    run.submit(apalache_job, "Ind_Ext")
+    for m in ("Ind_Sma", "Ind_Ext", "Ind_HL", "Ind_Count"):
+        run.submit(apalache_job, m)
     norm = ["HLNormalizer", "Roc", "BinaryEntropy", "Vsct", "Vst"]
     for n, L in ((2, 5), (3, 6)):
         run.submit(p1_job, "w-tiny-n%d" % n, "MC_Def", {"prop": "C02", "cfgs": cfgs(norm[:4], [n]), "alphabet": [-2, 0, 1, 3], "unit": 1000000000, "maxlen": L})
@@ -309,7 +309,7 @@ def c03(tier):
     if tier != "quick":
         pairs += [([100, 7], [7, 100]), ([1000000, -999999, 3], []), ([5] * 9, [100, -50] * 6)]
     # model level: the machine state is a function of the ghost window of the last K inputs (Apalache, all integers, all lengths)
-    for m in ("Ind_Sma", "Ind_Ext", "Ind_MyRsi"):
+    for m in ("Ind_Sma", "Ind_Ext", "Ind_MyRsi", "Ind_HL", "Ind_Count"):
         run.submit(apalache_job, m)
     plan = [(1, 4), (2, 6), (3, 7)] if tier == "quick" else [(1, 5), (2, 7), (3, 8), (4, 9), (5, 10)]
     for n, L in plan:
@@ -478,6 +478,7 @@ def c15(tier):
                 if "n" in cfg or cfg["k"] in ("Add", "Subtract", "Multiply"):
                     st.append({"cfg": cfg, "unit": 2, "mode": "nopanic", "eps": [1, 1], "float": "f64", "xs": xs, "k": 1})
         run.submit(p3_stream_job, "np-shapes-%s" % prof, "C15", st, profile=prof)
+    run.submit(apalache_job, "Ind_Count")       # the usize counter of BinaryEntropy never underflows, for all integer inputs and lengths
     # model level: the implementation-shaped machines never "panic" (usize underflow, empty unwrap) for any window 1..64
     for a in ([0], [1], [-1, 2]):
         ns = [1, 2, 3, 4, 5, 8, 16, 33, 64] if tier == "quick" else list(range(1, 65))
